@@ -26,6 +26,8 @@ class SrcInfo:
         self.enums = {}      # name -> [variant names]
         self.enum_discr = {} # name -> {variant: explicit discriminant}
         self.lines = {}      # rel path -> lines
+        self.aliases = {}    # type alias -> base type name
+        self.alias_full = {} # type alias -> full right-hand side text (non-generic aliases only)
         for dp, dn, fn in os.walk(os.path.join(root, 'src')):
             for f in fn:
                 if not f.endswith('.rs'): continue
@@ -41,6 +43,10 @@ class SrcInfo:
                         fm = re.match(r'\s*(?:pub(?:\([^)]*\))?\s+)?(\w+)\s*:', part)
                         if fm: names.append(fm.group(1))
                     self.structs.setdefault(m.group(1), names)
+                for m in re.finditer(r'\btype (\w+)(?:<[^>=]*>)?\s*=\s*([\w:]+)', txt):
+                    self.aliases.setdefault(m.group(1), m.group(2).split('::')[-1])
+                for m in re.finditer(r'\btype (\w+)\s*=\s*([^;]+);', txt):
+                    self.alias_full.setdefault(m.group(1), m.group(2).strip())
                 for m in re.finditer(r'\benum (\w+)(?:<[^>{]*>)?\s*\{', txt):
                     body = _body_at(txt, m.end())
                     body = re.sub(r'#\[[^\]]*\]', '', body)
@@ -53,11 +59,17 @@ class SrcInfo:
                     self.enums.setdefault(m.group(1), vs)
                     if dis: self.enum_discr[m.group(1)] = dis
 
-    def impl_header(self, rel, line):
+    def impl_header(self, rel, line, col=None):
         """(self type last segment, trait last segment or None, trait generic text) of the impl starting at rel:line"""
         lines = self.lines.get(rel)
         if not lines or line - 1 >= len(lines): return None
-        hdr = ' '.join(lines[line - 1:line + 5])
+        first = lines[line - 1]
+        if col is not None:
+            at = first[col - 1:]
+            if not (at.startswith('impl') or at.startswith('unsafe impl')): return None
+            hdr = ' '.join([at] + lines[line:line + 5])
+        else:
+            hdr = ' '.join(lines[line - 1:line + 5])
         hdr = hdr[hdr.find('impl'):]
         m = re.match(r'impl\s*(<(?:[^<>]|<[^<>]*>)*>)?\s*(.*?)\s*(?:where\b.*)?\{', hdr)
         if not m: return None
@@ -74,7 +86,21 @@ class SrcInfo:
         ty = re.sub(r'^&\s*(?:\'\w+\s+)?(?:mut\s+)?', '', ty)
         tm = re.match(r'([\w:]+)', ty)
         tyname = tm.group(1).split('::')[-1] if tm else ty
-        return tyname, trait, targs
+        seen = 0
+        while tyname in self.aliases and seen < 5:
+            tyname = self.aliases[tyname]; seen += 1
+        # blanket impl over a generic parameter: impl<T> Trait for T
+        gens = m.group(1) or ''
+        if re.search(r'[<,\s]%s\s*[:,>]' % re.escape(tyname), gens) and re.fullmatch(r'[A-Z]\w{0,2}', tyname):
+            tyname = '*'
+        return tyname, trait, targs, self.expand_aliases(ty)
+
+    def expand_aliases(self, ty):
+        for _ in range(4):
+            new = re.sub(r'\b(\w+)\b', lambda m: self.alias_full.get(m.group(1), m.group(1)), ty)
+            if new == ty: break
+            ty = new
+        return ty
 
     def field_index(self, struct, field):
         return self.structs[struct].index(field)
